@@ -215,4 +215,16 @@ PROPS["C05"] = {
     "assumptions": COMMON_ASSUMPTIONS,
 }
 
+PROPS["C04"] = {
+    "families": ["OF"], "ops": "sw,parse", "gen_deps": [],
+    "rule": "sw: an INDEPENDENT encoder of switch-sent messages written from the OpenFlow 1.3 / Nicira / ONF-bundle specifications with a plain byte builder (harness/cmd/ofvrun/of_switch.go; no encoder of the library is used) produces 20 kinds: hello with version bitmaps, "
+            "error, experimenter error, echo without and with payload, features reply, get-config reply, packet-in (random OXM matches of 18 field kinds with and without masks; Ethernet frames tagged/untagged carrying IPv4/ICMP with all sub-byte fields, IPv4/UDP, ARP, IPv6 with hop-by-hop and "
+            "fragment headers and ICMPv6/UDP, unknown ethertype), flow-removed, port-status, multipart replies (description, flow stats with matches and instruction/action lists, aggregate, table, port, queue, port descriptions), barrier reply, Nicira TLV-table reply, ONF bundle-control reply — "
+            "with exact and spare capacity. With each frame goes the list of every value written, addressed by the Go field that must hold it after Parse. Non-trivial = Parse returned a message.",
+    "trivial_outputs": ["err", "panic", "spin", "-"],
+    "level_text": "Kernel-checked (Props/C04.lean, 28 theorems): for ALL field values and any xid, every well-formed slice whose visible bytes are the frame the specification assigns to the message (written out with be16/be32/be64 and explicit padding in the statement — the independent encoder) parses to exactly the value holding those fields: echo request/reply and barrier reply, get-config reply, features reply, error and experimenter error with any data, hello with a version bitmap, port-status with the full 64-byte port, flow-removed (any correctly decoded match; empty; in_port), packet-in (any correctly decoded match and frame; opaque frame; ARP down to its addresses), aggregate / description / flow-stats replies (record with any decoded match and instruction list; in_port + goto-table), bundle-control reply, TLV-table reply with any number of mappings (induction over the loop). Proved counterexamples for the known findings: echo payload dropped; table / port / queue stats records and port descriptions of OpenFlow 1.3 rejected. Oracle on the implementation: every value the independent encoder wrote must be found in the message Parse returns (paths resolved through the regenerated struct layouts; instruction lists through the grammar walker and layout tables).",
+    "level_note": OF_NOTE + " Known findings D50 (echo payload dropped) and D51 (OpenFlow 1.0 layouts of table/port/queue stats records, port descriptions not decoded). The theorems are about the code after the repairs b558ac9 (hello elements), 83afeb1 (port-status, description strings) found by this check.",
+    "assumptions": COMMON_ASSUMPTIONS + ["OpenFlow 1.3.5, nicira-ext.h and ONF bundle extension layouts transcribed from memory, twice and independently: in the Lean statements and in the Go encoder"],
+}
+
 NOT_YET = {}
